@@ -4,6 +4,7 @@ Only property theorems and non-vacuity examples; lemmas are in Rpki/Proofs/X509*
 -/
 import Rpki.Proofs.X509Time
 import Rpki.Proofs.X509Serial3
+import Rpki.Proofs.InstantLemmas
 namespace Rpki.C17
 open Rpki.X509 Rpki.Consts
 
@@ -79,6 +80,40 @@ theorem validity_iff (v : Validity) (now : Int) : verifyAt v now = .ok () ↔ v.
   · by_cases h2 : now > v.na
     · simp [h1, h2] <;> omega
     · simp [h1, h2] <;> omega
+
+/-- **Calendar order is the order of instants.** `x509::Time` compares instants (`chrono::DateTime`);
+for real calendar times the instant — seconds counted through the proleptic Gregorian calendar,
+`Model/Instant.lean`, tied to `Time::timestamp` on every day of the years 1–9999 — is earlier exactly
+when the civil time (year, month, day, hour, minute, second) is earlier, and different civil times are
+different instants. -/
+theorem calendar_order_is_instant_order (a b : Civil) (ha : validCivil a = true) (hb : validCivil b = true) :
+    (unixOf a < unixOf b ↔ civilLt a b) ∧ (unixOf a = unixOf b ↔ a = b) := by
+  unfold unixOf
+  constructor
+  · have := secsOf_lt_iff a b ha hb
+    constructor
+    · intro h; exact this.1 (by omega)
+    · intro h; have := this.2 h; omega
+  · constructor
+    · intro h; exact secsOf_injective a b ha hb (by omega)
+    · intro h; rw [h]
+
+/-- A window given by two calendar times accepts a calendar time exactly when that time is not before
+the first and not after the second **on the calendar**. -/
+theorem validity_iff_calendar (nb na t : Civil) (h1 : validCivil nb = true) (h2 : validCivil na = true)
+    (h3 : validCivil t = true) :
+    verifyAt ⟨unixOf nb, unixOf na⟩ (unixOf t) = .ok () ↔ ¬ civilLt t nb ∧ ¬ civilLt na t := by
+  rw [validity_iff]
+  have a := (calendar_order_is_instant_order t nb h3 h1).1
+  have b := (calendar_order_is_instant_order na t h2 h3).1
+  simp only
+  constructor
+  · rintro ⟨x, y⟩
+    exact ⟨fun h => by have := a.2 h; omega, fun h => by have := b.2 h; omega⟩
+  · rintro ⟨x, y⟩
+    constructor
+    · apply Int.not_lt.mp; intro h; exact x (a.1 h)
+    · apply Int.not_lt.mp; intro h; exact y (b.1 h)
 
 /-- Trimming two windows gives their intersection. -/
 theorem trim_inter (a b : Validity) (now : Int) :
